@@ -88,8 +88,8 @@ def cases(tier, seed, prep=None):
                     "mode": ["zeromode", "verify-yes", "verify-no", "sender-allocates", "receiver-allocates", "verify-yes"][i % 6],
                     "code_length": [1, 2, 3, 5][(i // 6) % 4]})
         k += 1
-    for i in range(28 if q else 1000):
-        out.append({"kind": "liar", "payload": "file", "seed": base + k, "lie": ["wrong-hash", "not-ok", "garbage", "never"][i % 4]})
+    for i in range(40 if q else 1000):
+        out.append({"kind": "liar", "payload": "file", "seed": base + k, "lie": ["wrong-hash", "not-ok", "garbage", "never", "hash-empty", "hash-null", "hash-zero", "hash-list", "hash-upper", "hash-prefix"][i % 10]})
         k += 1
     return out
 
@@ -134,6 +134,11 @@ def lying_receiver(world, code, lie, log):
             rp.send_record(dict_to_bytes({"ack": "failed", "sha256": h.hexdigest()}))
         elif lie == "garbage":
             rp.send_record(b"\xff\xfe not json")
+        elif lie.startswith("hash-"):
+            # an acknowledgement whose hash is present but is not the hash of what was sent
+            good = h.hexdigest()
+            bad = {"hash-empty": "", "hash-null": None, "hash-zero": 0, "hash-list": [], "hash-upper": good.upper() + "0", "hash-prefix": good[:32]}[lie]
+            rp.send_record(dict_to_bytes({"ack": "ok", "sha256": bad}))
         log.append(("lied", lie))
         rp.close()
     finally:
